@@ -3,6 +3,7 @@ import io
 import os
 import sys
 import tempfile
+import time
 
 import common
 import runnerio
@@ -176,15 +177,26 @@ def reuse_stream_case(case):
     class UntilClosed(Scripted):
         @property
         def process_is_finished(self):
-            return self.stdin_closed > 0
+            # the command exits at EOF; the deadline turns "EOF never delivered" into a reportable outcome, not a hang
+            return self.stdin_closed > 0 or time.monotonic() > self._deadline
 
     r = UntilClosed(pty=False)
-    for i, (text, enc) in enumerate(case["runs"]):
+    for i, run in enumerate(case["runs"]):
+        text, enc = run[0], run[1]
+        as_bytes = len(run) > 2 and run[2]
         r.stdin_writes, r.stdin_closed = [], 0
         r._out, r._err, r._drained = [], [], {"out": False, "err": False}
-        r.run("cmd", in_stream=io.StringIO(text), hide=True, encoding=enc, echo_stdin=False)
+        r._deadline = time.monotonic() + 8
+        r.run("cmd", in_stream=io.BytesIO(text.encode(enc)) if as_bytes else io.StringIO(text), hide=True, encoding=enc, echo_stdin=False)
         got = b"".join(r.stdin_writes)
-        if got != text.encode(enc):
+        # what the command reads, decoded as the run's encoding, is the input text (for an encoding with a
+        # start-of-stream marker an empty input may arrive as nothing at all; a marker per piece decodes to extra
+        # U+FEFF characters and fails here)
+        try:
+            same = got.decode(enc) == text and (got == text.encode(enc) or not text)
+        except UnicodeDecodeError:
+            same = False
+        if not same:
             return "run %d on one runner object (encoding %s): the command received %r, its input was %r" % (i, enc, got, text.encode(enc))
         if r.stdin_closed != 1:
             return "run %d on one runner object: stdin closed %d times" % (i, r.stdin_closed)
@@ -276,6 +288,13 @@ def run(ctx):
     for t in ["é", "añb", "x"]:
         extra.append({"kind": "stream", "text": t, "bytes": True, "enc": "latin-1", "echo": False})
         extra.append({"kind": "stream", "text": t, "bytes": True, "enc": "utf-16-le", "echo": False})
+    # byte input in multi-byte encodings whose TRAIL bytes fall in the ASCII range (Shift-JIS / CP932, GBK, Big5), in
+    # stateful ones (ISO-2022-JP, UTF-7, UTF-16 with BOM) and in single-byte ones: decoded incrementally, forwarded whole
+    for t, e in [("表示", "shift_jis"), ("aソb", "shift_jis"), ("能ソ十\n", "cp932"), ("x丂y", "gbk"), ("許功蓋", "big5"), ("日本語 abc", "iso2022_jp"),
+                 ("a+b é", "utf-7"), ("añb", "utf-16"), ("é€", "cp1252"), ("жук", "koi8-r"), ("日本", "euc_jp")]:
+        for echo in (False, True):
+            extra.append({"kind": "stream", "text": t, "bytes": True, "enc": e, "echo": echo})
+            extra.append({"kind": "stream", "text": t, "bytes": False, "enc": e, "echo": echo})
     extra.append({"kind": "disabled"})
     for t in (["", "hello\n", "é€😀\n" * 3] if not ctx.thorough else ["", "hello\n", "é€😀\n" * 3, "x" * 1500, "é" * 700]):
         for b in (False, True):
@@ -283,14 +302,14 @@ def run(ctx):
                 extra.append({"kind": "real", "text": t, "bytes": b, "cmd": cmd})
     extra.append({"kind": "reuse", "texts": ["one\n", "two é\n", "", "three\n"]})
     extra.append({"kind": "reuse", "texts": ["", "x"]})
-    encs = ["utf-8", "latin-1", "cp1252", "utf-16-le", "cp1251", "utf-8"]
+    encs = ["utf-8", "latin-1", "cp1252", "utf-16-le", "cp1251", "utf-8", "utf-16", "utf-8-sig", "shift_jis"]
     pool = "aé ñoz\n€яx5"
     for _ in range(ctx.n(40, 400)):
         runs = []
         for _ in range(rng.randint(2, 4)):
             enc = rng.choice(encs)
             ok = [ch for ch in pool if _encodable(ch, enc)]
-            runs.append(["".join(rng.choice(ok) for _ in range(rng.randint(0, 8))), enc])
+            runs.append(["".join(rng.choice(ok) for _ in range(rng.randint(0, 8))), enc, rng.random() < 0.4])
         extra.append({"kind": "reuse_stream", "runs": runs})
     for how in ("sys.stdin", "explicit"):
         extra.append({"kind": "async", "how": how, "text": "hello é\n"})
